@@ -152,6 +152,12 @@ def match_ledger(ledger, pid, failure):
         if e.get("property") != pid:
             continue
         if failure["sig"] in e.get("signatures", []):
+            # an entry can pin the exact program(s) it is about, so that the same signature on any other program still alarms
+            progs = e.get("programs")
+            if progs:
+                case = failure.get("case") or {}
+                if h64(str(case.get("src", ""))) not in progs:
+                    continue
             return e
     return None
 
